@@ -9,6 +9,11 @@ SPEC = "trace/EdTrace.tla"
 DRV = ["drv_ed.c"]
 ED_METHD = {"projc": None, "extnd": "-DED_METHD=EXTND;LWNAF;COMBS;INTER", "basic": "-DED_METHD=BASIC;LWNAF;COMBS;INTER"}
 TINY_WITH = "-DWITH=BN;DV;FP;MD;EP;FPX;EPX;PP;PC;EB;FB;EC;ED"
+# Window parameters of the tiny worlds.  RLC_DEPTH = 4: with the default 5 and a 5-bit group order the comb tables hold
+# [j]P for every j < 32, among them [n]P = O, which ed_norm_sim cannot normalise (C17-normsim-neutral) - impossible for a
+# cryptographic order.  RLC_WIDTH = 5: ed_mul_lwreg's digit buffer reg[ceil((RLC_FP_BITS + 1) / (w - 1))] is one entry
+# short of what bn_rec_reg writes whenever RLC_FP_BITS mod (w - 1) # 0 (true for 8 bits and w = 4, not for 255 bits).
+TINY_WIN = ["-DRLC_DEPTH=4", "-DRLC_WIDTH=5"]
 
 
 def nontrivial(e):
@@ -42,8 +47,8 @@ def MC_RUNS(quick):
 
 def build(kind, tiny=False):
     if tiny:
-        args = [TINY_WITH] + ([ED_METHD[kind]] if ED_METHD[kind] else [])
-        return "w8p8", core.build_relic("w8p8", extra_args=args, tag="w8p8-ed-" + kind)
+        args = [TINY_WITH] + TINY_WIN + ([ED_METHD[kind]] if ED_METHD[kind] else [])
+        return "w8p8", core.build_relic("w8p8", extra_args=args, tag="w8p8-ed45-" + kind)
     if ED_METHD[kind] is None:
         return "ed255", core.build_relic("ed255")
     return "ed255", core.build_relic("ed255", extra_args=[ED_METHD[kind]], tag="ed255-" + kind)
@@ -60,7 +65,7 @@ def discover(cfg, bdir, wd):
     return [gen_ed.curve_from_probe(e) for e in evs if e.get("op") == "curve_probe" and e.get("ok") == 1]
 
 
-def full_width(cv, rng, quick, scale=1.0):
+def full_width(cv, rng, quick, scale=1.0, nlong=1):
     """(group-law / codec / map cases, multiplication cases) for one 255-bit build"""
     cv.find_torsion(rng)
     pool = gen_ed.point_pool(cv, rng, 1 if quick else 4)
@@ -71,35 +76,62 @@ def full_width(cv, rng, quick, scale=1.0):
     g += gen_ed.group_cases(cv, rng, pairs, per_pair=2 if quick else 5)
     g += gen_ed.unary_cases(cv, rng, allp + allp, per_point=3 if quick else 6)
     g += gen_ed.query_cases(cv, rng, pairs if not quick else rng.sample(pairs, 80), allp, 12 if quick else 60)
-    g += gen_ed.norm_sim_cases(cv, rng, allp, 8 if quick else 40)
+    g += gen_ed.norm_sim_cases(cv, rng, allp, 8 if quick else 40, nprobe=nlong)
     g += gen_ed.codec_cases(cv, rng, allp if not quick else rng.sample(allp, 10) + [(0, 1)], quick)
     g += gen_ed.map_cases(cv, rng, max(2, int((6 if quick else 40) * scale)))
     rng.shuffle(g)
     # ---- scalar multiplication: subgroup points only (the property claims [k]P there)
-    pts = sub[1:]
     corners = gen_ed.scalar_corners(cv, rng, nrand=3 if quick else 10, nlong=3 if quick else 8)
-    short = [k for k in corners if abs(k).bit_length() <= cv.n.bit_length()]
-    per_op = max(4, int((9 if quick else 50) * scale))
-
-    def ks_for(op):
-        return rng.sample(corners, min(per_op, len(corners)))
-    m = gen_ed.mul_cases(cv, rng, ks_for, pts)
-    for op in gen_ed.MUL_VAR:          # the neutral element as the point operand
-        m.append("%s %s 0 %s %s" % (op, cv.spec, rng.choice(["inf", "0,1", "0,1/P"]), gen_ed.hx(rng.choice(corners))))
-    nsim = max(2, int((3 if quick else 20) * scale))
-
-    def kp_for(op):
-        out = [(rng.choice(corners), rng.choice(corners)) for _ in range(nsim)]
-        out += [(rng.choice(short), rng.choice(short)) for _ in range(nsim)]
-        out += [(rng.choice(corners), 0), (0, rng.choice(corners))][:1 if quick else 2]
-        return out
-    m += gen_ed.sim_cases(cv, rng, kp_for, pts)
-    m += gen_ed.lot_cases(cv, rng, short, pts, range(0, 5), per_count=1 if quick else 3)
-    rng.shuffle(m)
+    m = mul_part(cv, rng, sub[1:], corners, per_op=max(4, int((9 if quick else 50) * scale)),
+                 nsim=max(2, int((4 if quick else 25) * scale)), nlong=nlong, lots=(range(0, 5), 1 if quick else 3))
     return g, m
 
 
-def tiny(cv, rng, quick):
+def mul_part(cv, rng, pts, corners, per_op, nsim, nlong, lots, dense=None, skip=()):
+    """Multiplication cases.  No ed routine reduces the scalar modulo n and most recode it into fixed-size buffers or
+    walk fixed-size tables (gen_ed.cap): every routine is exercised over its working range (`per_op` / `nsim` draws,
+    or every scalar of `dense`), and probed with `nlong` scalars beyond it."""
+    short = [k for k in corners if abs(k).bit_length() <= cv.n.bit_length()]
+
+    def split(op):
+        c = gen_ed.cap(cv, op)
+        pool = dense if dense is not None else corners
+        ok = [k for k in pool if abs(k).bit_length() <= c]
+        bad = [k for k in corners if abs(k).bit_length() > c]
+        if op == "ed_mul_lwreg" and cv.add == gen_ed.EXTND:
+            bad += [k for k in ok if k % 2 == 0 and k != 0]     # even scalars: see C17-lwreg-extnd-even-t
+            ok = [k for k in ok if k % 2 == 1 or k == 0]
+        if op == "ed_mul_sim_trick":
+            bad += [k for k in ok if abs(k) == 1]                # shorter than the window: see C17-simtrick-short-scalar
+            ok = [k for k in ok if abs(k) != 1]
+        return ok, bad
+
+    def ks_for(op):
+        ok, bad = split(op)
+        sel = list(ok) if dense is not None else rng.sample(ok, min(per_op, len(ok)))
+        nl = max(nlong, 1) if (op == "ed_mul_lwreg" and cv.add == gen_ed.EXTND) else nlong
+        return sel + rng.sample(bad, min(nl, len(bad)))
+    m = gen_ed.mul_cases(cv, rng, ks_for, pts,
+                         ops=[op for op in gen_ed.MUL_VAR + gen_ed.MUL_FIX + ["ed_mul_gen", "ed_mul_dig"] if op not in skip])
+    for op in [op for op in gen_ed.MUL_VAR if op not in skip]:          # the neutral element as the point operand
+        m.append("%s %s 0 %s %s" % (op, cv.spec, rng.choice(["inf", "0,1", "0,1/P"]), gen_ed.hx(rng.choice(short))))
+
+    def kp_for(op):
+        ok, bad = split(op)
+        sh = [k for k in ok if k in set(short)] or ok
+        out = [(rng.choice(ok), rng.choice(ok)) for _ in range(nsim)]
+        out += [(rng.choice(sh), rng.choice(sh)) for _ in range(nsim)]
+        out += [(rng.choice(ok), 0), (0, rng.choice(ok))]
+        if bad and nlong:
+            out += [(rng.choice(bad), rng.choice(ok)), (rng.choice(ok), rng.choice(bad))][:nlong]
+        return out
+    m += gen_ed.sim_cases(cv, rng, kp_for, pts)
+    m += gen_ed.lot_cases(cv, rng, short, pts, lots[0], per_count=lots[1])
+    rng.shuffle(m)
+    return m
+
+
+def tiny(cv, rng, quick, nlong=0):
     """near-exhaustive cases for a tiny world: every point of the curve (all cosets of the subgroup)"""
     pts = cv.points
     n = cv.n
@@ -119,24 +151,16 @@ def tiny(cv, rng, quick):
                             per_point=2 if quick else 6)
     g += gen_ed.query_cases(cv, rng, rng.sample(pairs, 300 if quick else 6000), pts if not quick else rng.sample(pts, 50),
                             40 if quick else 400)
-    g += gen_ed.norm_sim_cases(cv, rng, pts, 20 if quick else 400)
+    g += gen_ed.norm_sim_cases(cv, rng, pts, 20 if quick else 400, nprobe=1 if nlong else 0)
     g += gen_ed.codec_cases(cv, rng, pts if not quick else rng.sample(pts, 25) + [P for (P, o) in cv.tors], quick)
     rng.shuffle(g)
-    # ---- every k in [-2n, 3n], 2^j, 2^j +- 1 up to the bignum precision x every routine
+    # ---- every k in [-2n, 3n], 2^j, 2^j +- 1 (up to the bignum precision for the unlimited routines) x every routine
     ks = list(range(-2 * n, 3 * n + 1))
     for j in range(1, cv.bnbits):
         ks += [v for v in ((1 << j) - 1, 1 << j, (1 << j) + 1, -((1 << j) + 1)) if abs(v).bit_length() <= cv.bnbits]
     ks = sorted(set(ks))
-    small = list(range(-n - 2, 2 * n + 3))
-    m = []
-    for rnd in range(1 if quick else 3):
-        m += gen_ed.mul_cases(cv, rng, lambda op: ks if not quick else rng.sample(ks, 40), sub[1:])
-    m += gen_ed.sim_cases(cv, rng, lambda op: [(rng.choice(small), rng.choice(small)) for _ in range(60 if quick else 1500)] +
-                          [(rng.choice(ks), rng.choice(ks)) for _ in range(15 if quick else 300)], sub[1:])
-    m += gen_ed.lot_cases(cv, rng, small, sub[1:], range(0, 6), per_count=5 if quick else 100)
-    for op in gen_ed.MUL_VAR:
-        m.append("%s %s 0 %s %s" % (op, cv.spec, rng.choice(["inf", "0,1", "0,1/P"]), gen_ed.hx(rng.choice(small))))
-    rng.shuffle(m)
+    m = mul_part(cv, rng, sub[1:], ks, per_op=40, nsim=40 if quick else 1200, nlong=nlong,
+                 lots=(range(0, 6), 5 if quick else 100), dense=None if quick else ks)
     return g, m
 
 
@@ -182,10 +206,12 @@ def run(tier, seed):
         if not cases:
             return
         events, _ = conf.run(label, cfg, "ed", DRV, cases, SPEC, bdir=bdir, nontrivial=nontrivial,
-                             min_per_shard=1 if heavy else 60, driver_timeout=1500, tlc_timeout=2400)
+                             min_per_shard=20 if heavy else 60, driver_timeout=1500, tlc_timeout=2400)
         ops[label] = dict(collections.Counter(e.get("op") for e in events))
 
     # ---- B2: edwards25519, every coordinate system as the build default
+    # probes beyond a routine's scalar capacity per routine and build (each one is a known-finding candidate)
+    NL = {"projc": 1, "extnd": 0, "basic": 0} if quick else {"projc": 3, "extnd": 2, "basic": 1}
     for kind, scale in (("projc", 1.0), ("extnd", 0.7), ("basic", 0.4)):
         cfg, bdir = build(kind)
         cvs = discover(cfg, bdir, wd)
@@ -194,9 +220,14 @@ def run(tier, seed):
             part("ed255-%s-grp" % kind, cfg, ["ed_is_infty id1 0 inf"], bdir)
             continue
         cover["ed255-" + kind] = [c.spec for c in cvs]
-        g, m = full_width(cvs[0], rng, quick, scale)
-        part("ed255-%s-grp" % kind, cfg, g, bdir)
-        part("ed255-%s-mul" % kind, cfg, m, bdir, heavy=True)
+        g, m = full_width(cvs[0], rng, quick, scale, nlong=NL[kind])
+        if quick:           # one pass per build: the multiplications are spread evenly over the shards
+            gm = g + m
+            rng.shuffle(gm)
+            part("ed255-%s" % kind, cfg, gm, bdir, heavy=True)
+        else:
+            part("ed255-%s-grp" % kind, cfg, g, bdir)
+            part("ed255-%s-mul" % kind, cfg, m, bdir, heavy=True)
     # ---- B1: tiny worlds
     for kind in (("projc", "extnd") if quick else ("projc", "extnd", "basic")):
         cfg, bdir = build(kind, tiny=True)
@@ -207,11 +238,14 @@ def run(tier, seed):
         cover["w8p8-" + kind] = [w.name for w in worlds]
         G, M = [], []
         for w in (worlds if not quick or kind == "projc" else worlds[:1]):
-            g, m = tiny(w, rng, quick)
+            g, m = tiny(w, rng, quick, nlong=0 if quick else (1 if kind == "projc" else 0))
             G += g
             M += m
-        part("w8p8-%s-grp" % kind, cfg, G, bdir)
-        part("w8p8-%s-mul" % kind, cfg, M, bdir)
+        if quick:
+            part("w8p8-%s" % kind, cfg, G + M, bdir)
+        else:
+            part("w8p8-%s-grp" % kind, cfg, G, bdir)
+            part("w8p8-%s-mul" % kind, cfg, M, bdir)
     ev.cov["curves"] = cover
     ev.cov["ops"] = ops
     return conf.finish()
